@@ -315,12 +315,12 @@ def job(cfg):
 def configs(tier):
     t = 60
     cfgs = []
-    for n in (1, 2, 3):
+    for n in ((1, 2, 3) if tier == "quick" else (1, 2, 3, 4)):
         for nesting in ("flat", "nested", "inverse-of-composite", "composite-of-inverses"):
             for shape in ((2,), (2, 1, 2)):
                 cfgs.append({"type": "composite", "n": n, "nesting": nesting, "shape": list(shape), "timeout": t})
         cfgs.append({"type": "composite", "n": n, "nesting": "flat", "shape": [3], "perm": True, "timeout": t})
-    maxc, maxhw = (4, 4) if tier == "quick" else (6, 4)
+    maxc, maxhw = (4, 4) if tier == "quick" else (8, 6)
     shapes = set()
     for c in range(1, maxc + 1):
         shapes.add((c,))
@@ -329,8 +329,8 @@ def configs(tier):
                 shapes.add((c, hh, ww))
     for shape in sorted(shapes):
         for split_dim in range(1, len(shape) + 1):
-            for n in (1, 2, 3):
-                if int(np.prod(shape)) > (32 if tier == "quick" else 96):
+            for n in ((1, 2, 3) if tier == "quick" else (1, 2, 3, 4)):
+                if int(np.prod(shape)) > (32 if tier == "quick" else 160):
                     continue
                 cfgs.append({"type": "multiscale", "shape": list(shape), "split_dim": split_dim, "n": n, "timeout": t})
     return cfgs
